@@ -13,9 +13,11 @@
 EXTENDS Naturals, Sequences, FiniteSets, TLC, Json, IOUtils
 
 S == JsonDeserialize(IOEnv.STEPS)
-StepsNew      == S.new        \* sequence of [kind, name]
-StepsNewNoRaw == S.new_noraw
-StepsResave   == S.resave
+\* per fit tag (the order and number of the 'fit ...' attributes depend on
+\* the fit): sequences of [kind, name]
+StepsNew(fit)      == S.new[fit]
+StepsNewNoRaw(fit) == S.new_noraw[fit]
+StepsResave(fit)   == S.resave[fit]
 \* members an entry needs in order to be loaded (positions in the creation
 \* part of a step list are irrelevant: membership by NAME)
 Required == {S.required[i] : i \in DOMAIN S.required}
@@ -57,14 +59,14 @@ Repair(file, hash, steps) ==
   IF hash \in file.raw /\ hash \notin file.rawattr
   THEN <<steps[1]>> \o RawAttrStep \o SubSeq(steps, 2, Len(steps))
   ELSE steps
-StepsFor(file, id, hash) ==
+StepsFor(file, id, hash, fit) ==
   Repair(file, hash,
-    IF Exists(file, id) /\ Loadable(file.ana[id]) THEN StepsResave
+    IF Exists(file, id) /\ Loadable(file.ana[id]) THEN StepsResave(fit)
     ELSE IF Exists(file, id)
-         THEN SubSeq(StepsResave, 1, S.resave_prefix) \o Discard
-                \o SubSeq(StepsNewNoRaw, S.noraw_prefix + 1,
-                          Len(StepsNewNoRaw))
-    ELSE IF hash \in file.raw THEN StepsNewNoRaw ELSE StepsNew)
+         THEN SubSeq(StepsResave(fit), 1, S.resave_prefix) \o Discard
+                \o SubSeq(StepsNewNoRaw(fit), S.noraw_prefix + 1,
+                          Len(StepsNewNoRaw(fit)))
+    ELSE IF hash \in file.raw THEN StepsNewNoRaw(fit) ELSE StepsNew(fit))
 Refused(file, id, fit) ==
   Exists(file, id) /\ Loadable(file.ana[id]) /\ file.ana[id].fit # fit
 
